@@ -48,7 +48,7 @@ func importLogs(w http.ResponseWriter, r *http.Request) {
 				api.NoContent(w)
 				return
 			} else {
-				common.InternalServerError(w, r, fmt.Errorf("reading input stream: %w", err))
+				api.BadRequest(w, "IMPORT", fmt.Errorf("reading input stream: %w", err))
 				return
 			}
 		}
